@@ -41,7 +41,8 @@ Operations(kind) ==
   CASE kind = "location" -> {"union_other", "intersection_other", "minus_other", "union_self", "optimize_blocks",
                              "reverse", "reset_strand", "shift", "relative_interval", "location_relative_to_other",
                              "merge_overlapping", "optimize_and_combine", "extend_absolute_0", "minus_disjoint",
-                             "intersection_self", "contains_other", "has_overlap_other", "gaps_op", "scan_windows_op"}
+                             "intersection_self", "contains_other", "has_overlap_other", "gaps_op", "scan_windows_op",
+                             "reparent_extract"}
     [] kind = "parent" -> {"reset_location_other", "strip_then_reset", "make_location_on_it", "build_equal_parent"}
     [] kind = "sequence" -> {"append_other", "reverse_complement_op", "slice_op"}
     [] kind = "cds" -> {"to_gff", "to_gff_parent_qualifiers", "export_qualifiers_parent", "optimize_blocks_op",
